@@ -52,6 +52,20 @@ Class describing a model parameter.
 """
 ModelParamDefinition = namedtuple("ModelParamDefinition", ["name", "description"])
 
+"""
+Names of the explicit arguments of `model_from_str`/`model_from_file`.
+A keyword argument with one of these names is bound to that argument and
+never reaches `_tx_model_params`, thus a model parameter can't use them.
+"""
+RESERVED_PARAM_NAMES = (
+    "self",
+    "model_str",
+    "file_name",
+    "debug",
+    "pre_ref_resolution_callback",
+    "encoding",
+)
+
 
 class ModelParamDefinitions(Mapping):
     """
@@ -84,6 +98,11 @@ class ModelParamDefinitions(Mapping):
         return key
 
     def add(self, name, description):
+        if name in RESERVED_PARAM_NAMES:
+            raise TextXError(
+                f"model parameter name {name} is reserved "
+                "(argument of model_from_str/model_from_file)"
+            )
         self.store[name] = ModelParamDefinition(name, description)
 
     def check_params(self, source, /, **kwargs):
